@@ -36,6 +36,13 @@ func envOr(k, d string) string {
 
 func main() {
 	debug.SetGCPercent(800)
+	// a soft heap limit: the collector runs rarely while the heap is small and keeps it below
+	// the limit otherwise (VERIF_MEMLIMIT_GB overrides the default of 5 GiB)
+	memGB := int64(5)
+	if v, err := strconv.Atoi(os.Getenv("VERIF_MEMLIMIT_GB")); err == nil && v > 0 {
+		memGB = int64(v)
+	}
+	debug.SetMemoryLimit(memGB << 30)
 	os.Setenv("GOFLAGS", "-mod=mod")
 	os.Setenv("GOPROXY", "off")
 	os.Setenv("GOSUMDB", "off")
@@ -295,6 +302,15 @@ func extraHarnesses(prop string) []string {
 	return hs[prop]
 }
 
+func harnessMappedTo(prop, h string) bool {
+	for _, n := range extraHarnesses(prop) {
+		if n == h {
+			return true
+		}
+	}
+	return false
+}
+
 func cmdCheck(args []string) int {
 	if len(args) < 1 {
 		fmt.Fprintln(os.Stderr, "usage: gosmt check <PROPERTY> [--tier quick|thorough]")
@@ -318,6 +334,22 @@ func cmdCheck(args []string) int {
 		ev.Inconclusive = append(ev.Inconclusive, "load error: "+err.Error())
 		ev.write(start)
 		return 0
+	}
+	// harness files that do not compile against this tree: their harnesses cannot be run
+	var exRel []string
+	for rel := range excludedHarness {
+		exRel = append(exRel, rel)
+	}
+	sort.Strings(exRel)
+	for _, rel := range exRel {
+		data, _ := os.ReadFile(filepath.Join(verifDir, "harness", rel))
+		for _, m := range regexp.MustCompile(`(?m)^func (VH_\w+)\(`).FindAllStringSubmatch(string(data), -1) {
+			if strings.HasPrefix(m[1], "VH_"+prop+"_") || harnessMappedTo(prop, m[1]) {
+				msg := fmt.Sprintf("harness %s not run: %s does not compile against this tree (%s)", m[1], rel, excludedHarness[rel])
+				fmt.Println("INCONCLUSIVE", msg)
+				ev.Inconclusive = append(ev.Inconclusive, msg)
+			}
+		}
 	}
 	cfg := baseConfig(*tier)
 	var names []string
@@ -419,7 +451,6 @@ func cmdCheck(args []string) int {
 	return exit
 }
 
-
 // runSelftest pushes concrete inputs through the interpreter and through the native build and
 // compares the recorded outputs (translator validation). Returns records compared and the
 // harnesses that disagree.
@@ -468,7 +499,6 @@ func runSelftest(prog *Program) (int, []string) {
 	}
 	return total, bad
 }
-
 
 var domainRe = regexp.MustCompile(`verif(Int|Choice|Bytes|U8|U16|U32|U64|I64|Bool|Flag|Sched|Repeat|RandFaultAt)\([^)]*\)`)
 
